@@ -20,6 +20,7 @@ mod parsetotal;
 mod extract;
 mod extracttrace;
 mod printertrace;
+mod semtrace;
 mod laws;
 mod total;
 mod exprtrace;
@@ -75,6 +76,7 @@ fn main() {
                 "expr" => exprtrace::trace(seed, n),
                 "extract" => extracttrace::trace(seed, n),
                 "printer" => printertrace::trace(seed, n),
+                "sem" => semtrace::trace(seed, n),
                 "process" => total::trace_process(seed, n),
                 "sigint" => cli::trace_sigint(seed, n),
                 m => { eprintln!("unknown module {}", m); exit(2) }
